@@ -1264,6 +1264,22 @@ class Interp:
         if b is not None:
             return b(self, node, *args, **kwargs)
         import types
+        if isinstance(fn, types.FunctionType) and fn.__name__ == "<lambda>" and getattr(fn, "__module__", None) and self.info.qualname.startswith(fn.__module__ + "."):
+            # a lambda of the same module that was created natively (e.g. an entry of a module-level table): interpreted from
+            # its source, located by line number and parameter names
+            path = inspect.getsourcefile(fn)
+            tree = _module_cache.get(path)
+            if tree is None:
+                with open(path) as f:
+                    tree = _module_cache[path] = ast.parse(f.read(), path)
+            want = list(fn.__code__.co_varnames[:fn.__code__.co_argcount + (1 if fn.__code__.co_flags & 0x04 else 0)])
+            cands = [n for n in ast.walk(tree) if isinstance(n, ast.Lambda) and n.lineno == fn.__code__.co_firstlineno
+                     and [a.arg for a in n.args.args] + ([n.args.vararg.arg] if n.args.vararg else []) == want]
+            if len(cands) == 1 and not fn.__closure__:
+                sub = Interp(self.ctx, self.info, self.depth + 1)
+                sub.env = {}
+                return _Closure(sub, cands[0]).call(args)
+            raise Unsupported("native lambda at %s:%d cannot be located unambiguously in the source" % (path, fn.__code__.co_firstlineno))
         if isinstance(fn, types.FunctionType) and getattr(fn, "__module__", None) and self.info.qualname.startswith(fn.__module__ + ".") \
                 and fn.__qualname__.count(".") <= 1 and "<" not in fn.__qualname__:
             # a helper of the same module that has no contract of its own (e.g. one extracted by a refactoring) is
